@@ -86,6 +86,12 @@ fn gen_trailers(sim: &Sim) -> Vec<(String, Vec<u8>)> {
         };
         t.push((name, val));
     }
+    // a trailers frame may legally be empty (`80 00 00 00 00`): the status then travelled in the
+    // response headers; the client layer must still deliver the messages and one (empty) trailers map
+    if sim.chance(1, 12) {
+        t.clear();
+        sim.probe("zero-length-trailers-frame");
+    }
     t
 }
 
